@@ -78,12 +78,19 @@ const (
 	MSGarbage
 	// MSHTTP500: HTTP 500.
 	MSHTTP500
+
+	// RejectionWithToken: PKIStatus rejection(2) although a well-formed token for the
+	// request is attached (RFC 3161 forbids the token; a client must go by the status).
+	RejectionWithToken
+	// DuplicateDigestAttr: granted, but the token's message-digest attribute carries the
+	// digest twice (SET of two identical values): attributes must be single-valued.
+	DuplicateDigestAttr
 )
 
 var behaviourNames = [...]string{"Valid", "WrongNonce", "OmitNonce", "WrongImprint", "WrongImprintAlg",
 	"StatusRejection", "StatusWaiting", "GrantedNoToken", "BadTokenSignature", "HTTP500", "Garbage",
 	"Truncated", "WrongContentType", "Hang", "GrantedWithMods",
-	"MSValid", "MSWrongContent", "MSBadSignature", "MSGarbage", "MSHTTP500"}
+	"MSValid", "MSWrongContent", "MSBadSignature", "MSGarbage", "MSHTTP500", "RejectionWithToken", "DuplicateDigestAttr"}
 
 func (b Behaviour) String() string {
 	if b >= 0 && int(b) < len(behaviourNames) {
@@ -95,7 +102,8 @@ func (b Behaviour) String() string {
 // RFC3161Behaviours and MSBehaviours list all values, for generators.
 var (
 	RFC3161Behaviours = []Behaviour{Valid, WrongNonce, OmitNonce, WrongImprint, WrongImprintAlg, StatusRejection,
-		StatusWaiting, GrantedNoToken, BadTokenSignature, HTTP500, Garbage, Truncated, WrongContentType, Hang, GrantedWithMods}
+		StatusWaiting, GrantedNoToken, BadTokenSignature, HTTP500, Garbage, Truncated, WrongContentType, Hang, GrantedWithMods,
+		RejectionWithToken, DuplicateDigestAttr}
 	MSBehaviours = []Behaviour{MSValid, MSWrongContent, MSBadSignature, MSGarbage, MSHTTP500}
 )
 
@@ -375,6 +383,7 @@ type cmsSpec struct {
 	signingCert  bool   // add ESS signing-certificate attribute
 	includeCerts bool
 	flipSig      bool
+	dupDigest    bool // message-digest attribute with the value twice
 }
 
 // signCMS emits ContentInfo{SignedData} with one SignerInfo
@@ -405,6 +414,9 @@ func (a *Authority) signCMS(s cmsSpec) ([]byte, error) {
 		der.EncAttribute(der.OIDAttrContentType, der.EncOID(s.contentType)),
 		der.EncAttribute(der.OIDAttrSigningTime, der.EncUTCTime(a.now())),
 		der.EncAttribute(der.OIDAttrMessageDigest, der.EncOctets(sum(h, s.content))),
+	}
+	if s.dupDigest {
+		attrs[2] = der.EncAttribute(der.OIDAttrMessageDigest, der.EncOctets(sum(h, s.content)), der.EncOctets(sum(h, s.content)))
 	}
 	if s.signingCert {
 		issuerSerial := der.EncSeq(der.EncSeq(der.EncExplicit(4, a.Cert.RawIssuer)), der.EncInt(a.Cert.SerialNumber))
@@ -547,6 +559,7 @@ func (a *Authority) token(req *Request, b Behaviour) ([]byte, *big.Int, error) {
 		signingCert:  a.AddSigningCertAttr,
 		includeCerts: a.IncludeCerts && req.CertReq,
 		flipSig:      b == BadTokenSignature,
+		dupDigest:    b == DuplicateDigestAttr,
 	})
 	return tok, serial, err
 }
@@ -632,6 +645,9 @@ func (a *Authority) respond(reqDER []byte, b Behaviour) outcome {
 		st = 1
 	}
 	o.body = der.EncSeq(statusInfo(st, "", -1), tok)
+	if b == RejectionWithToken {
+		o.body = der.EncSeq(statusInfo(2, "request rejected by script (token attached nevertheless)", 0), tok)
+	}
 	switch b {
 	case Truncated:
 		o.body = o.body[:len(o.body)/2]
